@@ -1,7 +1,7 @@
 (* Properties_C09_ctx.v — property C09 (a failed schema operation leaves the context exactly as it was):
    theorem statements only. Model: Context.v (the context as a state machine: lys_parse / ly_ctx_load_module /
-   lys_set_implemented / ly_ctx_compile with lys_unres_glob_revert as coded; correspondence with the real library:
-   impl/t_ctx.c, component ctxs); proofs: ContextP.v.
+   lys_set_implemented / ly_ctx_compile / ly_ctx_set_options / ly_ctx_unset_options with lys_unres_glob_revert as coded;
+   correspondence with the real library: impl/t_ctx.c, component ctxs); proofs: ContextP.v.
 
    reachable R s        s is the state of a new context (with or without LY_CTX_EXPLICIT_COMPILE) after some
                         operations, the import callback serving the repository R
@@ -9,7 +9,9 @@
                         an assert() of the C code does not hold)
    obs s                what the public API shows: modules with revision, implemented flag, feature values and
                         compiled schema; answers of ly_ctx_get_module_latest / _implemented; the hashed fields of
-                        ly_ctx_get_modules_hash
+                        ly_ctx_get_modules_hash; ly_ctx_get_options (explicit s: LY_CTX_EXPLICIT_COMPILE, xopts s:
+                        ENABLE_IMP_FEATURES, REF_IMPLEMENTED, SET_PRIV_PARSED; LY_CTX_ALL_IMPLEMENTED is not modelled)
+   op                   OpParse, OpLoad, OpImpl, OpCompile, OpSetOpt fl, OpUnsetOpt fl (fl: the four modelled bits)
    quiescent s          executable: nothing pending (unres empty, no to_compile mark), every implemented module is
                         compiled against the current features and would compile again, single-module dep sets do not
                         depend on features
@@ -32,8 +34,8 @@ Print Assumptions C09_failed_op_restores_refuted.
 
 (* MAIN THEOREM. In a reachable state with nothing pending (quiescent: executable; every state of a context without
    LY_CTX_EXPLICIT_COMPILE between two calls, and a context with explicit compilation right after ly_ctx_compile), a
-   failing lys_parse / ly_ctx_load_module / lys_set_implemented / ly_ctx_compile leaves the observable state as it was,
-   whatever stage fails (syntax, import not found, duplicate definitions found after the imports were resolved, another
+   failing lys_parse / ly_ctx_load_module / lys_set_implemented / ly_ctx_compile / ly_ctx_set_options /
+   ly_ctx_unset_options leaves the observable state (modules and options) as it was, whatever stage fails (syntax, import not found, duplicate definitions found after the imports were resolved, another
    implemented revision, unknown feature, if-feature of an enabled feature, a node that does not compile, leafref target,
    disabled list key) and whatever it did before failing (created modules, took the latest-revision flag, changed
    feature bits, implemented and compiled modules). Uses the code as of /repo commits 21681e3 (the revert gives
@@ -43,6 +45,35 @@ Theorem C09_failed_op_restores : forall R s o s',
   reachable R s -> quiescent s = true -> step R s o = (s', RErr) -> obs s' = obs s.
 Proof. exact failed_restores_reachable. Qed.
 Print Assumptions C09_failed_op_restores.
+
+(* For the two option calls the main theorem holds because they cannot fail when nothing is pending: the recompilation
+   that a newly set LY_CTX_SET_PRIV_PARSED triggers compiles again what was compiled. *)
+Theorem C09_option_calls_quiescent_ok : forall R s fl, quiescent s = true ->
+  snd (step R s (OpSetOpt fl)) <> RErr /\ snd (step R s (OpUnsetOpt fl)) = ROk.
+Proof. exact option_calls_quiescent_ok. Qed.
+Print Assumptions C09_option_calls_quiescent_ok.
+
+(* Where ly_ctx_set_options can fail (explicit compilation, modules pending) its own part of the property holds in
+   EVERY state, reachable or not, quiescent or not: a failing call leaves ly_ctx_get_options as it was (the new flags
+   are ORed in only after the recompilation succeeded, and LY_CTX_SET_PRIV_PARSED is cleared again). The modules are
+   not covered there: the revert of the failed recompilation drops what earlier calls left pending, which is the known
+   finding of C09_quiescent_necessary. *)
+Theorem C09_set_options_failed_keeps_options : forall R s fl s',
+  step R s (OpSetOpt fl) = (s', RErr) -> explicit s' = explicit s /\ xopts s' = xopts s.
+Proof. exact set_options_step_failed. Qed.
+Print Assumptions C09_set_options_failed_keeps_options.
+
+(* Regression of the seeded change C09-7 (set_options_gen true: the variant of ly_ctx_set_options that ORs the new flags
+   in before the recompilation): it does not have that property. Witness: explicit compilation, b (leafref without
+   target) parsed and pending; set_options(ENABLE_IMP_FEATURES | SET_PRIV_PARSED) fails and ENABLE_IMP_FEATURES stays set. *)
+Example C09_set_options_or_first_refuted :
+  ~ (forall s fl, snd (set_options_gen true s fl) = false -> xopts (fst (set_options_gen true s fl)) = xopts s).
+Proof. exact set_options_or_first_refuted. Qed.
+
+(* The same witness on the model as coded: the call fails and the options are what they were. *)
+Example C09_set_options_failed_witness :
+  snd (step w8_R w8_s (OpSetOpt w8_fl)) = RErr /\ xopts (fst (step w8_R w8_s (OpSetOpt w8_fl))) = xopts w8_s.
+Proof. exact (conj (proj1 w8_facts) (proj1 (proj2 w8_facts))). Qed.
 
 (* The remaining side condition is necessary (the witness of the refutation above is reachable and not quiescent). *)
 Theorem C09_quiescent_necessary :
